@@ -36,12 +36,14 @@ var c17Families = []urlFamily{
 	{"path-middle-num", func(k int) string { return fmt.Sprintf("http://example.com/story/%d/the-long-read", k) }},
 	{"file-article-num-html", func(k int) string { return fmt.Sprintf("http://example.com/news/article-%d.html", k) }},
 	{"path-post-num", func(k int) string { return fmt.Sprintf("http://example.com/post/%d", k) }},
+	// a file-name suffix below a year/month folder (the number is not a path component of its own)
+	{"file-suffix-in-year-month-folder", func(k int) string { return fmt.Sprintf("http://example.com/2014/07/budget-talks-%d.html", k) }},
 }
 
 var (
 	c17Wrappers = []string{"none", "span", "li", "td"}
 	c17Current  = []string{"text", "span", "strong", "b", "em.current", "brackets"}
-	c17Seps     = []string{" ", " | ", "", " ", " · ", "\n"}
+	c17Seps     = []string{" ", " | ", "", " ", " · ", "\n", "<!-- item -->", " <!-- --> "}
 	c17Labels   = []string{"", "Pages: ", "Page "}
 	c17HrefForm = []string{"abs", "rootrel"}
 	c17Pretty   = []bool{false, true}
